@@ -33,7 +33,7 @@ def cases(tier, seed):
     quick = tier == "quick"
     out = []
     trees = [("s:" + k, v) for k, v in c02.structural_trees().items()]
-    names = c02.HOSTILE[:10] if quick else c02.HOSTILE
+    names = (c02.HOSTILE[:8] + c02.HOSTILE[12:14]) if quick else c02.HOSTILE   # 12, 13: glob and brace names
     trees += [("n:%d" % i, c02.hostile_tree(n)) for i, n in enumerate(names)]
     idx = 0
     for tname, (roots, gargs, entries) in trees:
